@@ -272,7 +272,9 @@ theorem tamperTrunc_body {pv pv' : PVal} {n : Nat} (h : tamperTrunc pv n = some 
     · split at h
       · cases h; rfl
       · cases h
-    · cases h
+    · split at h
+      · cases h; rfl
+      · cases h
   | Raw hd l => cases h
 
 theorem tamperExtend_body {pv pv' : PVal} {n : Nat} (h : tamperExtend pv n = some pv') : pv'.body? = none := by
